@@ -21,12 +21,13 @@ theorem callInit_some {c : Chart} {t tgt : St} (ht : t ≠ []) (hi : c.init t = 
   | nil => exact absurd rfl ht
   | cons a p => simp [callInit, hi]
 
-theorem climb_spec (tgt t : St) : ∀ (x : St) (tp : List St) (mx ip : Nat) (k : Ctx),
+theorem climb_spec (c : Chart) (hf : ∀ s, c.fall s = false) (tgt t : St) :
+    ∀ (x : St) (tp : List St) (mx ip : Nat) (k : Ctx),
     x = tgt.drop (ip + 1) → ip + 1 ≤ tgt.length → Buf tp tgt (ip + 1) → mx + 1 = tp.length → ip ≤ mx →
-    (∃ m tp' mx' k', climb t x tp mx ip k = .done m tp' mx' k' ∧ m + 1 ≤ tgt.length ∧
+    (∃ m tp' mx' k', climb c t x tp mx ip k = .done m tp' mx' k' ∧ m + 1 ≤ tgt.length ∧
         tgt.drop (m + 1) = t ∧ Buf tp' tgt (m + 1) ∧ mx' + 1 = tp'.length ∧
         actions k'.log = actions k.log) ∨
-    (∃ k', climb t x tp mx ip k = .top k' ∧ ∀ i, ip < i → i ≤ tgt.length → tgt.drop i ≠ t) := by
+    (∃ k', climb c t x tp mx ip k = .top k' ∧ ∀ i, ip < i → i ≤ tgt.length → tgt.drop i ≠ t) := by
   intro x
   induction x with
   | nil =>
@@ -53,7 +54,7 @@ theorem climb_spec (tgt t : St) : ∀ (x : St) (tp : List St) (mx ip : Nat) (k :
         store_ok (tp := tp) (mx := mx) (ip := ip + 1) (a :: p) hmx (by omega)
       have hb1 : Buf tp1 tgt (ip + 1 + 1) := hb.store hr hrest hx
       have hlt := drop_cons_lt hx.symm
-      simp only [hs]
+      simp only [hs, hf, Bool.false_eq_true, if_false]
       rcases ih tp1 mx1 (ip + 1) (probe (a :: p) k) (drop_cons_tail hx.symm).symm (by omega) hb1 hmx1 hip1
         with ⟨m, tp', mx', k', h1, h2, h3, h4, h5, h6⟩ | ⟨k', h1, h2⟩
       · exact Or.inl ⟨m, tp', mx', k', h1, h2, h3, h4, h5, by rw [h6]; simp⟩
@@ -92,7 +93,7 @@ theorem settleC_bad_init {c : Chart} {fuel : Nat} {t tgt : St} (hi : c.init t = 
       exact absurd ⟨encloses_iff.mp e.1, e.2⟩ h
   simp [settleC, hi, this]
 
-theorem drill_spec (c : Chart) (g : Cfg) (hg : g.drillGuard = true)
+theorem drill_spec (c : Chart) (hf : ∀ s, c.fall s = false) (g : Cfg) (hg : g.drillGuard = true)
     (hdepth : ∀ s t, c.init s = some t → t.length ≤ c.depth) :
     ∀ (fuel : Nat) (t : St) (tp : List St) (mx : Nat) (k : Ctx),
       t ≠ [] → mx + 1 = tp.length → c.depth + 1 ≤ fuel + t.length → 1 ≤ fuel →
@@ -117,7 +118,8 @@ theorem drill_spec (c : Chart) (g : Cfg) (hg : g.drillGuard = true)
     | some tgt =>
       have hlen := hdepth t tgt hi
       rw [drill, callInit_some ht hi]
-      simp only [Bool.not_true, Bool.false_eq_true, if_false, hg, Bool.true_and, decide_eq_true_eq]
+      simp only [Bool.not_true, Bool.false_eq_true, if_false, hg, Bool.true_and, decide_eq_true_eq,
+        probeAny_eq_probe hf]
       by_cases good : t <:+ tgt ∧ t ≠ tgt
       · obtain ⟨h1, h2⟩ := good
         obtain ⟨m, hm1, hm2, hm3⟩ := proper_suffix_drop h1 h2
@@ -131,7 +133,7 @@ theorem drill_spec (c : Chart) (g : Cfg) (hg : g.drillGuard = true)
           subst this; rw [rd_set_zero tgt (by omega)]; rfl
         have hx : (probe tgt { temp := tgt, log := k.log ++ [⟨t, .init⟩] }).temp = tgt.drop (0 + 1) := by
           rw [probe_temp _ _ htgt]; simp
-        rcases climb_spec tgt t _ (tp.set 0 tgt) mx 0 (probe tgt { temp := tgt, log := k.log ++ [⟨t, .init⟩] })
+        rcases climb_spec c hf tgt t _ (tp.set 0 tgt) mx 0 (probe tgt { temp := tgt, log := k.log ++ [⟨t, .init⟩] })
           hx (by omega) hb0 (by simpa using hmx) (by omega)
           with ⟨m', tp2, mx2, k3, hc, c1, c2, c3, c4, c5⟩ | ⟨k3, hc, c1⟩
         · simp only [hc]
@@ -176,7 +178,7 @@ theorem drill_spec (c : Chart) (g : Cfg) (hg : g.drillGuard = true)
               intro i hi
               have : i = 0 := by omega
               subst this; rw [rd_set_zero _ (by omega)]; rfl
-            rcases climb_spec (b :: q) t q (tp.set 0 (b :: q)) mx 0
+            rcases climb_spec c hf (b :: q) t q (tp.set 0 (b :: q)) mx 0
               (probe (b :: q) { temp := b :: q, log := k.log ++ [⟨t, .init⟩] })
               (by simp) (by simp) hb0 (by simpa using hmx) (by omega)
               with ⟨m', tp2, mx2, k3, hc, c1, c2, c3, c4, c5⟩ | ⟨k3, hc, c1⟩
